@@ -341,4 +341,68 @@ theorem euRun_sim {app : App} {s : State} {a : Arch} {r : Runner} {bytes : List 
           | ret => exact hpcm.elim
           | err => exact hpcm.elim
 
+/-- the back-end part of `euQueue_sim`, for ANY state of the branch unit (used by MVP-5, whose branch unit
+differs): queueing a result relates the machine to the architectural state after the instruction -/
+theorem euQueue_back {s : State} {a : Arch} {r : Runner} {e : Gen.Execution} {eu : ExecUnit} {mmu : Model.Mmu.Mmu}
+    (hb : BackRel s.ctx s.pwmi s.writeBus.inside mmu.l1d eu.storeID a)
+    (hshape : Shape r.instr e) (hfree : s.writeBus.canAdd = true)
+    (hst : e.RegisterChange = false → e.MemoryChange = true →
+        Model.Mmu.storeOk (L : Nat) a.ctx.Memory.length e.MemoryChanges = true ∧
+        ∀ p ∈ e.MemoryChanges, ∀ y ∈ mmu.l1d.lines, y.covers p.1.toInt = false)
+    (a' : Arch) (har : a'.ctx.rat = false) (hat : a'.ctx.Transaction.entries = [])
+    (hregs : a'.ctx.Registers = (if e.RegisterChange then a.ctx.Registers.set e.Register e.RegisterValue else a.ctx.Registers))
+    (hmem : a'.ctx.Memory = (if e.RegisterChange then a.ctx.Memory else
+        if e.MemoryChange then applyChanges a.ctx.Memory e.MemoryChanges else a.ctx.Memory)) :
+    Back (euQueue s r e eu mmu).1 a' ∧ (euQueue s r e eu mmu).1.eu.processing = eu.processing ∧
+    (euQueue s r e eu mmu).1.eu.pendingMemoryRead = eu.pendingMemoryRead ∧
+    (euQueue s r e eu mmu).1.eu.memory = eu.memory ∧ (euQueue s r e eu mmu).1.eu.runner = eu.runner ∧
+    (euQueue s r e eu mmu).1.fu = s.fu ∧ (euQueue s r e eu mmu).1.decodeBus = s.decodeBus ∧
+    (euQueue s r e eu mmu).1.executeBus = s.executeBus ∧ (euQueue s r e eu mmu).1.wu = s.wu ∧
+    (euQueue s r e eu mmu).1.mode = s.mode ∧ (euQueue s r e eu mmu).1.cycles = s.cycles ∧
+    (euQueue s r e eu mmu).1.mmu = mmu ∧
+    (euQueue s r e eu mmu).2 =
+      (if e.PcChange = true ∧ s.bu.toCheck = true ∧ s.bu.expectation ≠ e.NextPc then EuOut.flush e.NextPc else EuOut.none) := by
+  refine ⟨?_, ?_, ?_, ?_, ?_, rfl, rfl, rfl, rfl, rfl, rfl, ?_, ?_⟩
+  · unfold Back euQueue
+    simp only
+    by_cases hmc : e.MemoryChange = true
+    · have hrc : e.RegisterChange = false := by
+        cases h : e.RegisterChange with
+        | false => rfl
+        | true => have := hshape.regNoMem h; rw [hmc] at this; cases this
+      obtain ⟨hok, hun⟩ := hst hrc hmc
+      simp only [hmc, if_true]
+      rw [bus_add_inside _ _ hfree]
+      have := hb.push_store
+        { sequenceID := eu.storeID + 1, execution := e, instructionType := r.instr.instructionType,
+          writeRegisters := r.instr.writeRegisters } a'
+        (by simp only [hshape.wregs]) (by simp [isStore, hrc, hmc]) rfl har hat
+        (by rw [hregs, hrc]; rfl) (by rw [hmem, hrc, hmc]; rfl) hok hun
+      exact this
+    · have hmc' : e.MemoryChange = false := by simpa using hmc
+      simp only [hmc', Bool.false_eq_true, if_false]
+      rw [bus_add_inside _ _ hfree]
+      have := hb.push_plain
+        { sequenceID := eu.storeID, execution := e, instructionType := r.instr.instructionType,
+          writeRegisters := r.instr.writeRegisters } a'
+        (by simp only [hshape.wregs]) (by simp [isStore, hmc']) har hat hregs
+        (by rw [hmem, hmc']; simp)
+      exact this
+  · unfold euQueue; simp only; split <;> rfl
+  · unfold euQueue; simp only; split <;> rfl
+  · unfold euQueue; simp only; split <;> rfl
+  · unfold euQueue; simp only; split <;> rfl
+  · unfold euQueue; simp only
+  · unfold euQueue BranchUnit.shouldFlushPipeline
+    simp only
+    by_cases hp : e.PcChange = true
+    · by_cases ht : s.bu.toCheck = true
+      · by_cases hx : s.bu.expectation = e.NextPc
+        · simp [hp, ht, hx]
+        · simp [hp, ht, hx]
+      · have ht' : s.bu.toCheck = false := by simpa using ht
+        simp [hp, ht']
+    · have hp' : e.PcChange = false := by simpa using hp
+      simp [hp']
+
 end Proofs.Mvp4
